@@ -12,6 +12,7 @@ func extractAll(p *pkg, f *facts) {
 	handleFacts(p, f)
 	cacheFacts(p, f)
 	limiterFacts(p, f)
+	portmapFacts(p, f)
 }
 
 func (p *pkg) constNat(f *facts, leanName, goName string) {
@@ -299,4 +300,77 @@ func limiterFacts(p *pkg, f *facts) {
 		}
 	}
 	f.boolean("limitersAreTokenBuckets", ok1, true, "")
+}
+
+func portmapFacts(p *pkg, f *facts) {
+	hasLoopback := func(fn *ast.FuncDecl) bool {
+		found := false
+		ast.Inspect(fn.Body, func(n ast.Node) bool {
+			if se, ok := n.(*ast.SelectorExpr); ok && se.Sel.Name == "IsLoopback" {
+				found = true
+			}
+			return true
+		})
+		return found
+	}
+	hc, okc := p.funcs["Portmapper.handleCall"]
+	for lean, fnName := range map[string]string{"pmV2SetChecked": "Portmapper.handleSet", "pmV2UnsetChecked": "Portmapper.handleUnset",
+		"pmRpcbSetChecked": "Portmapper.handleRpcbSet", "pmRpcbUnsetChecked": "Portmapper.handleRpcbUnset"} {
+		fn, ok := p.funcs[fnName]
+		if !ok || !okc {
+			f.boolean(lean, false, false, "func "+fnName+" or handleCall not found")
+			continue
+		}
+		checked := hasLoopback(fn)
+		if !checked {
+			// or: every call of the handler in handleCall sits inside `if <fn>(remoteAddr)` where <fn> tests IsLoopback
+			short := fnName[len("Portmapper."):]
+			calls, guarded := 0, 0
+			var stack []ast.Node
+			ast.Inspect(hc.Body, func(n ast.Node) bool {
+				if n == nil {
+					stack = stack[:len(stack)-1]
+					return true
+				}
+				stack = append(stack, n)
+				ce, ok := n.(*ast.CallExpr)
+				if !ok {
+					return true
+				}
+				se, ok := ce.Fun.(*ast.SelectorExpr)
+				if !ok || se.Sel.Name != short {
+					return true
+				}
+				calls++
+				for i := len(stack) - 2; i >= 0; i-- {
+					is, ok := stack[i].(*ast.IfStmt)
+					if !ok {
+						continue
+					}
+					// the call must be in the "then" block
+					inThen := is.Body.Pos() <= ce.Pos() && ce.End() <= is.Body.End()
+					if !inThen {
+						continue
+					}
+					if c, ok := is.Cond.(*ast.CallExpr); ok {
+						if id, ok := c.Fun.(*ast.Ident); ok {
+							if g, ok := p.funcs[id.Name]; ok && hasLoopback(g) {
+								guarded++
+								break
+							}
+						}
+					}
+				}
+				return true
+			})
+			checked = calls > 0 && calls == guarded
+		}
+		f.boolean(lean, checked, true, "")
+	}
+	if fn, ok := p.funcs["Portmapper.makeReply"]; ok {
+		src := exprString(p.fset, fn.Body)
+		f.boolean("pmMismatchInfo", strings.Contains(src, "PROG_MISMATCH"), true, "")
+	} else {
+		f.boolean("pmMismatchInfo", false, false, "func makeReply not found")
+	}
 }
